@@ -37,6 +37,13 @@ CaseOut(c) == [id |-> c.id, fam |-> c.fam, vm |-> c.vm, prog |-> ProgOut(c.prog)
 
 Emit == Done => PrintT("REPLAY " \o ToJson([case |-> CaseOut(env.c), exp |-> Outcome]))
 
+\* Machine refines its control-flow abstraction MachineCF (used by MC_Safety to cover all inputs):
+\* every step of every explored behaviour is a step of the abstraction.
+CF == INSTANCE MachineCF WITH cfprog <- env.prog, cfpc <- pc,
+                             cfstack <- [k \in 1..Len(frames) |-> frames[k].ret],
+                             cfstatus <- status.k
+CFRefinement == [][CF!CFNext]_<<env.prog, pc, [k \in 1..Len(frames) |-> frames[k].ret], status.k>>
+
 \* design-level invariants checked in every state of every behaviour
 TypeOK == /\ pc \in Nat
           /\ \A r \in 0..10 : reg[r] \in Word /\ rt[r] \in {"c", "s", "m", "u"}
